@@ -65,6 +65,7 @@ struct TxtEngine {
     rep->add("texts");
     rep->add(d.kind == D_VALID ? "texts_valid" : d.kind == D_INVALID ? "texts_invalid" : "texts_unspecified");
     std::string msg = vy_error_message(y);
+    { unsigned long h = 1469598103934665603ULL; for (char c : cs + "/" + std::to_string(rc) + msg) h = (h ^ (unsigned char) c) * 1099511628211ULL; rep->counters["dg:" + cs.substr(0, cs.find(' ')) + std::to_string(h % 13)] += (long) (h >> 36); }
     if (verbose) printf("text %s\n  reference: %s%s  yaep rc=%d msg=\"%s\"\n", jstr(text).c_str(), d.kind == D_VALID ? "VALID" : d.kind == D_INVALID ? "INVALID" : "UNSPECIFIED", d.why.empty() ? "" : (" (" + d.why + ")").c_str(), rc, msg.c_str());
     if (!documented_code(rc)) V("undocumented-code", cs, text, "yaep_parse_grammar returned " + std::to_string(rc));
     if (msg.size() > 200) V("message-too-long", cs, text, "error message of " + std::to_string(msg.size()) + " characters");
